@@ -23,6 +23,8 @@ var (
 	VerifyFn func(t, u *Hdr) error
 	// ValidateFn is the stateless validation verdict; nil means "valid".
 	ValidateFn func(h *Hdr) error
+	// HeightHook, if set, runs on every Height() call (used as an optional scheduling point).
+	HeightHook func(h *Hdr)
 	// UnmarshalFn may veto or panic during decoding; nil means "decode".
 	UnmarshalFn func(b []byte) error
 
@@ -35,7 +37,12 @@ func (h *Hdr) New() *Hdr         { return new(Hdr) }
 func (h *Hdr) IsZero() bool      { return h == nil }
 func (h *Hdr) ChainID() string   { return h.Chain }
 func (h *Hdr) Hash() header.Hash { return HashOf(h.ID) }
-func (h *Hdr) Height() uint64    { return h.H }
+func (h *Hdr) Height() uint64 {
+	if HeightHook != nil {
+		HeightHook(h)
+	}
+	return h.H
+}
 func (h *Hdr) LastHeader() header.Hash {
 	return HashOf(h.Prev)
 }
